@@ -11,6 +11,7 @@ mod control;
 mod disthdr;
 mod edges;
 mod elixir;
+mod epmd;
 mod etf;
 mod frag;
 mod handshake;
@@ -59,6 +60,7 @@ fn main() {
         "conn-recv" => conn::run_recv(rest),
         "serde-rt" => serde_rt::run(rest),
         "elixir-run" => elixir::run(rest),
+        "epmd-run" => epmd::run(rest),
         other => {
             eprintln!("unknown subcommand {other}");
             2
